@@ -18,10 +18,32 @@ func init() {
 		add := c.Fn(tsK + "addTimer")
 		del := c.Fn(tsK + "delTimer")
 		has := c.Fn(tsK + "hasTimer")
-		gft := c.Fn(tsK + "getFrontTimer")
+		gft := c.P.Fn(tsK + "getFrontTimer")
 		tick := c.Fn(tsK + "Tick")
 		enc := c.Fn("x/timerstore/types.EncodeBlockAndKey")
-		if tv == nil || add == nil || del == nil || has == nil || gft == nil || tick == nil || enc == nil {
+		if tv == nil || add == nil || del == nil || has == nil || tick == nil || enc == nil {
+			return
+		}
+		if gft == nil {
+			// the per-iteration re-read of the store's front timer is the obligation itself: without
+			// it, whatever fires the callbacks works from something read before earlier callbacks ran
+			fired := false
+			for _, f := range c.P.AllFuncs {
+				if !inProd(f) || !strings.HasPrefix(ir.FuncName(f), tsK) {
+					continue
+				}
+				ir.EachInstr(f, func(in ssa.Instruction) {
+					if call := ir.CallOf(in); call != nil && !call.IsInvoke() && call.StaticCallee() == nil && strings.Contains(ir.Desc(call.Value), ".callbacks[") {
+						fired = true
+					}
+				})
+			}
+			if fired {
+				c.Rule("C15a tick loop: the loop re-reads the store's front timer each iteration (getFrontTimer), deletes it through delTimer and then fires it")
+				c.Fail("C15a/tickValue/front-timer-re-read-and-deleted-each-iteration", c.P.Pos(tv.Pos()), "TimerStore.getFrontTimer no longer exists and callbacks are still fired: the timers to fire are not re-read from the store after each callback (e.g. they come from a snapshot taken before the callbacks ran), so a timer deleted or added by an earlier callback in the same tick is not honoured")
+			} else {
+				c.Undecided("anchor function %sgetFrontTimer not found (renamed or removed?)", tsK)
+			}
 			return
 		}
 
